@@ -8,7 +8,7 @@ from props import _e_util as U
 
 THEOREMS = ["C13.heap_store", "C13.heap_parent", "C13.heap_tree", "C13.heap_empty_refused",
             "C13.nested_mirror", "C13.nested_accepted_iff",
-            "C13.relation_exact", "C13.relation_children_in_row_order", "C13.root_candidates", "C13.relation_refused"]
+            "C13.relation_exact", "C13.relation_exact_rootrow", "C13.relation_children_in_row_order", "C13.root_candidates", "C13.relation_refused"]
 PROOF_IMPORTS = ["BigtreeProofs.Properties.C13"]
 NAMED_REJ = ("ValueError",)
 LIBS = ["list", "pd", "pdobj", "pl"]
@@ -513,13 +513,14 @@ LEVEL_TEXT = ("proof: Lean 4 kernel-checked theorems about the executable models
               "node: accepted for both allow_duplicates settings, root = the unique root candidate, edges of the result = "
               "the rows as a multiset, so the fuel rows+1 sufficed), relation_children_in_row_order (for EVERY accepted "
               "input the children of each node are the rows naming it as parent, in row order, with the row's non-null "
-              "cells), root_candidates, relation_refused (no/several root candidates, repeated non-leaf child under different "
+              "cells), relation_exact_rootrow (the same with a null-parent root row: the root carries its non-null cells), "
+              "root_candidates, relation_refused (no/several root candidates, repeated non-leaf child under different "
               "parents => ValueError), nested_mirror and nested_accepted_iff (the result read back as a nested dict is the "
               "input; accepted iff names non-empty and sibling names distinct), heap_store / heap_parent / heap_tree "
               "(element i is the child of element (i-1)/2, left for odd i, right for even i, no other slot points to it; "
               "the returned tree is the heap-shaped tree of the list)")
-LEVEL_NOTE = ("relation_exact is stated for edge lists without a null-parent root row (root rows are covered by "
-              "relation_children_in_row_order, root_candidates and the correspondence check); the float index expression "
+LEVEL_NOTE = ("relation_exact is stated for plain edge lists, relation_exact_rootrow for edge lists with one null-parent "
+              "root row; the float index expression "
               "int((i+1)/2)-1 is modelled on natural numbers; pandas/polars are exercised through the real libraries by "
               "the correspondence check (list / pandas / pandas dtype=object / polars), not proved; a null-parent root row "
               "in a default-dtype pandas 3 frame is refused by the pinned code (environment incompatibility, excluded)")
